@@ -276,8 +276,13 @@ def run(shard, tier, seed):
            st.sampled_from(["store", "disk_interface"]), st.sampled_from(["obj", "bytes"]))
     def prop(rnd, cfg, nb, shared, via, form):
         opts = dict(p_fork=0.5, p_tx=0.8, zero_rewards=True, p_unusual=0.3, max_tx=4)
+        res.count("generated")
         if shared:
             opts.update(p_copy=0.35, p_same_cb=0.3)
+        if shard["i"] >= 14 and res.counters.get("generated", 0) % 2 == 0:
+            nb = 52 + nb          # more than 50 rows, siblings at every height: anything that pages, caps or batches shows here
+            opts.update(p_tx=0.4, p_sibling=0.35, p_fork=0.2)
+            res.count("trees_of_more_than_50_blocks")
         case = chainexec.gen_case(rnd, cfg, nb, 0.0, ["C01"], **opts)
         batches = []
         left = nb
